@@ -258,3 +258,48 @@ m("file-png-unwrap", ["C19"], "src/convert/image.rs",
   "            .save_png(file)\n            .map_err(|err| ImageError::IoError(Error::new(ErrorKind::Other, err.to_string())))",
   "            .save_png(file)\n            .map_err(|err| ImageError::IoError(Error::new(ErrorKind::Other, err.to_string())))\n            .map(|()| {\n                let _ = std::fs::metadata(file).unwrap();\n            })",
   note="PNG path panics when the file cannot be inspected afterwards (only reachable after success: benign)", benign=True)
+
+
+# ---------------------------------------------------------------- second round: replacements for
+# mutants that the repository's own goldens kill (they sit in cells the goldens do not cover)
+m("blk-groups-33H", ["C02"], "src/hardcode.rs",
+  "        (11 << 24) | (15 << 16) | (46 << 8) | 16,", "        (46 << 24) | (15 << 16) | (11 << 8) | 16,",
+  note="33-H: counts of short and long blocks swapped")
+m("blk-missing-bits-34", ["C02"], "src/version.rs",
+  "            V14 | V15 | V16 | V17 | V18 | V19 | V20 | V28 | V29 | V30 | V31 | V32 | V33 | V34 => 3,",
+  "            V14 | V15 | V16 | V17 | V18 | V19 | V20 | V28 | V29 | V30 | V31 | V32 | V33 => 3,\n            V34 => 4,",
+  note="remainder bit count of version 34 wrong")
+m("blk-maxbytes-36", ["C02", "C10"], "src/version.rs",
+  "2611, 2761, 2876, 3034, 3196, 3362, 3532, 3706,", "2611, 2761, 2876, 3035, 3196, 3362, 3532, 3706,",
+  note="total codeword count of version 36 off by one")
+m("ver-table-34", ["C04"], "src/version.rs",
+  "            0b10_0010_1000_1011_1010,", "            0b10_0010_1000_1011_1000,",
+  note="version word of version 34 one bit wrong (a version the goldens skip)")
+m("gf-antilog-254", ["C07", "C02"], "src/polynomials.rs",
+  "    232, 116, 214, 244, 234, 168, 80, 88, 175,\n];", "    232, 116, 214, 244, 234, 168, 80, 89, 175,\n];",
+  note="log-table entry of byte value 254 wrong")
+m("gf-log-199", ["C07", "C02"], "src/polynomials.rs",
+  "    83, 166, 81, 162, 89, 178, 121, 242, 249, 239, 195, 155, 43, 86, 172, 69, 138, 9, 18, 36, 72,",
+  "    83, 166, 81, 162, 89, 178, 121, 242, 249, 239, 195, 155, 43, 86, 172, 69, 138, 9, 18, 36, 73,",
+  note="one exp-table entry wrong")
+m("mask-meadow-u8", ["C08", "C01"], "src/datamasking.rs",
+  "            if (((row + column) % 2) + ((row * column) % 3)) % 2 != 0 {",
+  "            if (((row + column) % 2) + ((row * column) as u8 as usize % 3)) % 2 != 0 {",
+  note="pattern 7: product truncated to 8 bits, wrong beyond row*column >= 256 only")
+m("mode-dollar", ["C09"], "src/encode.rs",
+  "        | b' '\n        | b'$'\n        | b'%'", "        | b' '\n        | b'%'",
+  note="'$' no longer classed alphanumeric")
+m("mode-underscore", ["C09", "C10"], "src/encode.rs",
+  "        | b' '\n        | b'$'\n        | b'%'", "        | b' '\n        | b'_'\n        | b'$'\n        | b'%'",
+  note="'_' classed alphanumeric but has no value: panic")
+m("tot-threshold-40H-byte", ["C10", "C05"], "src/version.rs",
+  "                    1220..=1273 => Some(V40),\n                    _ => None,\n                },\n            },\n        }\n    }",
+  "                    1220..=1274 => Some(V40),\n                    _ => None,\n                },\n            },\n        }\n    }",
+  note="last byte-mode threshold one too generous: 1274 bytes at 40-H underflow the terminator")
+m("sel-line-threshold", ["C11"], "src/score.rs",
+  "        if item.value() != current {\n            if count >= 5 {\n                line_score += count - 2;\n            }",
+  "        if item.value() != current {\n            if count > 5 {\n                line_score += count - 2;\n            }",
+  note="runs of exactly five ended by a colour change are not penalised (rows only matter for the ranking)")
+m("lbl-version-block", ["C15", "C03"], "src/default.rs",
+  "            qr[n - 11 + i][j] = Module::version(value);", "            qr[n - 11 + i][j] = Module::format(value);",
+  note="bottom-left version block labelled format")
